@@ -10,6 +10,7 @@ CONSTANTS
  MCRoots = {"x", "y"}
  MCN = 2
  MCSteps = {1, 7, 10}
+ PreFull = TRUE
  MaxCalls = 3
 INVARIANTS SuccessIffFinal StuckStep ReasonOfStep Dependency Participation AnalysedOnce AnalysedHadDeadline
 PROPERTIES MCOnlyAtDeadline MCLateDropped
